@@ -461,14 +461,16 @@ fn run(args: &Args) {
                 poly_case(&mut out, h, w, &pts);
             }
             _ => {
-                let kind = rng.below(6);
+                let kind = if rng.chance(1, 30) { 0 } else { 1 + rng.below(5) };
                 let (pts, gen): (Vec<(i64, i64)>, &str) = match kind {
                     0 => {
-                        // zero-width / zero-height polygons (all x or all y equal)
+                        // zero-width / zero-height polygons (all x or all y equal); kept few and
+                        // low: on code without the empty-bounds fix each scanline of such a
+                        // polygon costs ~2^32 iterations
                         let n = 1 + rng.usize_below(5);
                         let c = rng.range_i64(-3, 6);
                         let vertical = rng.chance(1, 2);
-                        ((0..n).map(|_| { let v = rng.range_i64(-2, 4); if vertical { (v, c) } else { (c, v) } }).collect(), "degenerate")
+                        ((0..n).map(|_| { let v = rng.range_i64(0, 2); if vertical { (v, c) } else { (c, v) } }).collect(), "degenerate")
                     }
                     1 => {
                         // rectangles and triangles with a few collinear extra vertices
